@@ -432,6 +432,48 @@ fn failing_and_slow_device(rep: &mut Report) {
             }
         }
     }
+    // (a2) two sinks appending to one file: "append keeps existing content" also
+    // when that content was written (by the other sink) after this sink was opened.
+    {
+        rep.eval();
+        rep.count("two_appenders_cases", 1);
+        let replay = json!({"part": "two-appenders"});
+        let dir = tempfile::tempdir().expect("tempdir");
+        let path = dir.path().join("shared.log");
+        let (wa, ra) = new_stream::<u8>();
+        let (wb, rb) = new_stream::<u8>();
+        match (FileSink::new(ra, &path, Mode::Append), FileSink::new(rb, &path, Mode::Append)) {
+            (Ok(mut a), Ok(mut b)) => {
+                let mut want: Vec<u8> = Vec::new();
+                let mut failed = None;
+                for round in 0..20u8 {
+                    for (w, sink, len, base) in [(&wa, &mut a, 50usize, b'a'), (&wb, &mut b, 70usize, b'A')] {
+                        let piece: Vec<u8> = (0..len).map(|i| base + ((round as usize + i) % 26) as u8).collect();
+                        let mut wbuf = w.write_buf().unwrap();
+                        wbuf.slice()[..len].copy_from_slice(&piece);
+                        wbuf.produce(len, &[]);
+                        if let Err(e) = sink.work().map(|_| ()) {
+                            failed = Some(format!("{e}"));
+                        }
+                        want.extend_from_slice(&piece);
+                    }
+                }
+                drop(a);
+                drop(b);
+                let got = std::fs::read(&path).unwrap_or_default();
+                if let Some(e) = failed {
+                    rep.violation("C17|two-appenders|work-error", format!("work() failed: {e}"), replay);
+                } else if got != want {
+                    rep.violation(
+                        "C17|two-appenders|existing-content-not-kept",
+                        format!("two FileSinks in Append mode wrote 20 alternating pieces each to one file: it holds {} bytes, expected all {} in the order of the work() calls (equal prefix {})", got.len(), want.len(), got.iter().zip(&want).take_while(|(x, y)| x == y).count()),
+                        replay,
+                    );
+                }
+            }
+            (a, b) => rep.violation("C17|two-appenders|open-failed", format!("Append on a fresh path: {:?} / {:?}", a.err().map(|e| e.to_string()), b.err().map(|e| e.to_string())), replay),
+        }
+    }
     // (b) the device accepts 64 KiB and then stalls (a FIFO whose reader does not
     // read yet): while it stalls, acknowledged <= accepted by the device.
     rep.eval();
@@ -534,7 +576,7 @@ fn failing_and_slow_device(rep: &mut Report) {
 
 pub fn main(opts: &Opts) -> Report {
     let mut rep = Report::new("C17");
-    rep.rule = "modes: {Create, Overwrite, Append} x {absent, empty, non-empty, directory, unwritable} x {FileSink, NoCopyFileSink}, each case in a child process running as uid 65534 (root ignores mode bits), compared with the documented table (exhaustive, 30 cases); crash points: a child streams unique samples/records through a one-page stream into the sink from a feeder thread while the main thread loops work() and reports, after every return, the cumulative count consumed by returned calls with one write(2); the parent SIGKILLs after a seeded number of reports plus a seeded delay; the file must be a prefix of the serialised stream holding at least the last acknowledged count; a sink on /dev/full (every write fails) must consume nothing, and a sink on a FIFO that accepts one pipe buffer and then stalls must not have acknowledged more than the device accepted while its work() call is blocked; distinct = (acknowledged, bytes on disk) pairs".into();
+    rep.rule = "modes: {Create, Overwrite, Append} x {absent, empty, non-empty, directory, unwritable} x {FileSink, NoCopyFileSink}, each case in a child process running as uid 65534 (root ignores mode bits), compared with the documented table (exhaustive, 30 cases); crash points: a child streams unique samples/records through a one-page stream into the sink from a feeder thread while the main thread loops work() and reports, after every return, the cumulative count consumed by returned calls with one write(2); the parent SIGKILLs after a seeded number of reports plus a seeded delay; the file must be a prefix of the serialised stream holding at least the last acknowledged count; a sink on /dev/full (every write fails) must consume nothing, two sinks appending alternately to one file must leave every piece in call order, and a sink on a FIFO that accepts one pipe buffer and then stalls must not have acknowledged more than the device accepted while its work() call is blocked; distinct = (acknowledged, bytes on disk) pairs".into();
     rep.assume("durability means 'in the file as seen after SIGKILL' (page cache), not power-loss durability");
     rep.exhaustive = Some(false);
     if opts.shard == 0 {
